@@ -34,7 +34,7 @@ fn op(u: &mut Unstructured<'_>, consume: bool, depth: u32) -> arbitrary::Result<
             }
             Op::New(d)
         }
-        1 => if depth == 0 && u.ratio(1u8, 8u8)? { Op::Repeat { op: Box::new(op(u, false, depth + 1)?), k: u.int_in_range(2u8..=12)? } } else { Op::CloneH(u.arbitrary()?) },
+        1 => if depth == 0 && u.ratio(1u8, 8u8)? { Op::Repeat { op: Box::new(op(u, false, depth + 1)?), k: u.int_in_range(2u8..=12)? } } else { let h: u16 = u.arbitrary()?; if h & 7 == 7 { Op::CloneFrom { dst: h, src: u.arbitrary()? } } else { Op::CloneH(h) } },
         2 => Op::DropRoot(u.arbitrary()?),
         3 => if u.ratio(1u8, 3u8)? { Op::DropClosureRoots(u.arbitrary()?) } else { Op::DropRoot(u.arbitrary()?) },
         4 | 5 => Op::Store { owner: u.arbitrary()?, target: u.arbitrary()?, adopt: u.int_in_range(0u8..=2)? },
